@@ -1,32 +1,23 @@
 (* C12_detn.v — what the numpy fallback of Det / Inv (dim > 3) is compared against: the generic
-   Leibniz determinant and adjugate of coq/model/C12_FeDetN.v.  Over R: it coincides with the
-   regenerated closed forms for dims 1-3, with the Laplace (cofactor) expansion for dims 2-5, and
-   adjugate * A = A * adjugate = det * I for dim 4 (so adjugate / det IS the inverse when
-   det <> 0).  The same Gallina definitions, instantiated with Q, are evaluated in the
-   correspondence cases of dims 4 and 5. *)
+   Leibniz determinant and adjugate of coq/model/C12_FeDetN.v (facts proved once in
+   coq/model/C12_FeDetNProofs.v).  Here: the closed forms regenerated from _linalg.py for dims 1-3
+   ARE that generic determinant; the same Gallina definitions instantiated with Q are evaluated
+   in the correspondence cases of dims 4 and 5 (agreement to 1e-10 with np.linalg.det / inv). *)
 From Coq Require Import List Arith Bool Reals Lra Lia.
-From EFModel Require Import C12_FeDetN.
+From EFModel Require Import C12_FeDetN C12_FeDetNProofs.
 From EFP Require Import Gen_Linalg.
 Import ListNotations.
 Local Open Scope nat_scope.
-
-Definition leibnizR := leibniz_gen R 0%R 1%R Rplus Rmult Ropp.
-Definition adjugateR := adjugate_gen R 0%R 1%R Rplus Rmult Ropp.
-Definition cofactorR := cofactor_row0 R 0%R 1%R Rplus Rmult Ropp.
 
 Theorem closed_forms_are_generic_leibniz (m : nat -> nat -> R) :
   gen_det1R m = leibnizR 1 m /\ gen_det2R m = leibnizR 2 m /\ gen_det3R m = leibnizR 3 m.
 Proof.
   repeat split; unfold gen_det1R, gen_det2R, gen_det3R, leibnizR, leibniz_gen, signed; cbn; ring.
 Qed.
+Print Assumptions closed_forms_are_generic_leibniz.
 
-Theorem cofactor_expansion_is_leibniz_2_to_5 (m : nat -> nat -> R) :
-  cofactorR 2 m = leibnizR 2 m /\ cofactorR 3 m = leibnizR 3 m /\ cofactorR 4 m = leibnizR 4 m /\
-  cofactorR 5 m = leibnizR 5 m.
-Proof.
-  repeat split; unfold cofactorR, cofactor_row0, leibnizR, leibniz_gen, signed, minor; cbn; ring.
-Qed.
+Definition C12_cofactor_expansion_is_leibniz_2_to_5 := cofactor_expansion_is_leibniz_2_to_5.
+Definition C12_adjugate4_times_matrix := adjugate4_times_matrix.
+Definition C12_adjugate4_over_det_is_inverse := adjugate4_over_det_is_inverse.
 Print Assumptions cofactor_expansion_is_leibniz_2_to_5.
-
-Example det4_hyp_satisfiable : leibnizR 4 (fun i j => if i =? j then 1%R else 0%R) <> 0%R.
-Proof. unfold leibnizR, leibniz_gen, signed. cbn. lra. Qed.
+Print Assumptions adjugate4_over_det_is_inverse.
